@@ -24,6 +24,7 @@ ASSUMPTIONS = [
     "mutated gml/dot documents: only the exception type is checked (a graph or ValueError)",
     "DirectedGraph.from_file reads with type 'digraph' (there is no class for 'dag'), so that route does not check the acyclicity test",
     "objects: only legal edits are made (add_edge of a pair the type allows, remove_edge of a present edge, update_vertex_number above the current count); 'the graph as it is at writing time' is the harness-side model; for random constructions (gnp, glrd, ... , pyramids and trees, whose structure is C15's subject) and after split_random_edges / add_random_missing_edges the model is read from has_edge on every pair of vertices",
+    "streams: a stream given to readGraph / writeGraph / from_file is an instance of io.TextIOBase (the tree refuses other objects with ValueError) and the format is always named (a stream made with os.fdopen has a number as name); a stream that cannot seek implements the documented methods only (read, readline and what io.IOBase derives from them; write), read(size) and readline(size) may return fewer characters than asked, never more; streams on pipes are opened with universal newlines as sys.stdin is; named pipes and os.pipe() are those of the host (Linux)",
     "objects: a DOT text written by the tree is read back by the tree (pydot, ~50 ms) in a quarter of the quick cases and in every thorough enumerated case; otherwise by a harness-side reader of the plain dialect pydot writes (one statement per line, decimal identifiers, numbering by increasing identifier), falling back to the tree reader when the text is not in that dialect",
 ]
 
@@ -1218,19 +1219,37 @@ _PAIRS = ['{}/{}'.format(t, f) for t in R.TYPES for f in FORMATS[t]]
 SUBCHECKS = [
     SubCheck('roundtrip', run_roundtrip, strategy=strat_roundtrip, enumerate_cases=enum_roundtrip,
              quick=2500, thorough=50000,
-             rule="graphs of the four types with 0..14 vertices (10..14 in a third of the cases), random edge subsets of density 0, 1/2 .. 1/16 (isolated vertices, empty sides, loops and back edges for digraphs), default or generated one-line name, every format of supported_graph_formats() for the type, five routes: StringIO with explicit format / file name with the format taken from the extension and with explicit format / open file handle / Graph.from_file (name, name+format, handle+format) / command-line graph argument '<file>', '<format> <file>', '<format> -' (standard input) and 'save <file>' / 'save <format> <file>'; plus every simple graph and dag on <=4 vertices, digraph on <=3, bipartite graph with sides <=2 in every format through StringIO; oracle: class, vertex count, left/right split, list(edges()), number_of_edges(), is_dag() all as in the original, and (StringIO route, in-house formats) the written text means the same graph to the independent reference reader; non-trivial: >=1 edge and >=3 vertices",
+             rule="graphs of the four types with 0..14 vertices (10..14 in a third of the cases), random edge subsets of density 0, 1/2 .. 1/16 (isolated vertices, empty sides, loops and back edges for digraphs), default or generated one-line name, every format of supported_graph_formats() for the type, five routes: StringIO with explicit format / file name with the format taken from the extension and with explicit format / open file handle / Graph.from_file (name, name+format, handle+format) / command-line graph argument '<file>', '<format> <file>', '<format> -' (standard input) and 'save <file>' / 'save <format> <file>'; plus every simple graph and dag on <=4 vertices, digraph on <=3, bipartite graph with sides <=2 in every format through StringIO; oracle: class, vertex count, left/right split, list(edges()), number_of_edges(), is_dag() all as in the original, and (StringIO route, in-house formats) the written text means the same graph to the independent reference reader; non-trivial: >=1 edge and >=3 vertices. "
+                  "KIND OF STREAM (route 'stream', 3 of 8 generated cases + an enumerated sweep of every type x format x kind of source x entry point "
+                  "on fixed graphs with 0..12 vertices): the graph is written by the tree into a destination that cannot seek (io.TextIOBase object "
+                  "with write() only / write end of os.pipe() block or line buffered / a named pipe given by name to writeGraph / to the graph "
+                  "argument `save <format> <fifo>`; StringIO as control) and the text is read by the tree from a source that cannot seek or tell "
+                  "(io.TextIOBase object with read/readline only, the same handing out at most 1..9 characters per sized read, read end of "
+                  "os.pipe() with the default or a 16 byte buffer, a named pipe opened by the harness or given by name) at readGraph / "
+                  "<class>.from_file / the graph argument `<format> -` with sys.stdin replaced (`<format> <fifo>`) / kthlist2pebbling's cli() with "
+                  "sys.stdin replaced (`-i <fifo>`); oracle: the written text is the original graph for the tree's reader on StringIO and (in-house "
+                  "formats) for the reference reader, the graph read from the stream is the original graph (kthlist2pebbling: the formula is the "
+                  "pebbling formula of the graph, computed by the harness). Route 'subprocess' (7 enumerated cases in the quick tier, 47 in the "
+                  "thorough one): a real child process with pipes as standard input and output: readGraph(sys.stdin) + writeGraph(sys.stdout) "
+                  "for every graph type, `cnfgen -q peb kthlist -`, `kthlist2pebbling -q`, `cnfgen -q domset 3 <format> -`; oracle: the text that comes "
+                  "back is the graph for the reference reader / the formula is the harness-computed pebbling formula / equals the formula the "
+                  "tool builds in-process from the same text in a regular file",
              required_labels=_PAIRS + ['route:' + r for r in ROUTES] + ['>=10-vertices', 'isolated', 'empty-side',
                                                                        'null-graph', 'has-back-edge', 'self-loop',
-                                                                       'named', 'last-vertex-isolated', 'written-text-valid']),
+                                                                       'named', 'last-vertex-isolated', 'written-text-valid',
+                                                                       'route:stream', 'route:subprocess', 'tool:readwrite',
+                                                                       'tool:cnfgen-peb', 'tool:kthlist2pebbling', 'tool:cnfgen-domset'] +
+             ['rstream:' + k for k in RKINDS] + ['wstream:' + k for k in WKINDS] + ['rapi:' + a for a in RAPIS]),
     SubCheck('readers_text', run_text, strategy=strat_text, enumerate_cases=enum_text,
              quick=20000, thorough=400000,
-             rule="texts for kthlist (simple, digraph, dag, bipartite), dimacs (simple, digraph, dag) and matrix: written by the reference writers in several layouts from random graphs (0..14 vertices), optionally with an edge the type forbids, then 0..3 mutations (blank / whitespace / comment lines anywhere, truncation, deleted / duplicated / swapped lines, changed / deleted / inserted numbers, deleted / inserted characters, CR LF, int() spellings, indentation, continuation lines, unknown line types) or short random texts over the format's alphabet, plus the snippets of tests/ and of the documentation; oracle: independent reference reader (valid -> exactly that graph, invalid -> ValueError, gray -> either), never an exception other than ValueError, a text read as 'dag' is accepted only if all edges go upward; non-trivial: the text has a size line and at least one edge token. Thorough tier only: one atheris (libFuzzer, coverage of cnfgen.graphs) campaign per in-house reader and graph type, from an empty corpus and from a seed corpus (snippets of tests/ + reference-writer output), -runs={} each, max_len 160, in a sub-process with a fresh corpus directory under out/fuzz, the same oracle applied to every input inside the target".format(FUZZ_RUNS),
+             rule="texts for kthlist (simple, digraph, dag, bipartite), dimacs (simple, digraph, dag) and matrix: written by the reference writers in several layouts from random graphs (0..14 vertices), optionally with an edge the type forbids, then 0..3 mutations (blank / whitespace / comment lines anywhere, truncation, deleted / duplicated / swapped lines, changed / deleted / inserted numbers, deleted / inserted characters, CR LF, int() spellings, indentation, continuation lines, unknown line types) or short random texts over the format's alphabet, plus the snippets of tests/ and of the documentation; oracle: independent reference reader (valid -> exactly that graph, invalid -> ValueError, gray -> either), never an exception other than ValueError, a text read as 'dag' is accepted only if all edges go upward; a quarter of the texts (and every snippet once more) reach the tree through a stream that cannot seek (the six kinds of source of the roundtrip sub-check) at readGraph / from_file / the graph argument `<format> -`, same oracle; non-trivial: the text has a size line and at least one edge token. Thorough tier only: one atheris (libFuzzer, coverage of cnfgen.graphs) campaign per in-house reader and graph type, from an empty corpus and from a seed corpus (snippets of tests/ + reference-writer output), -runs={} each, max_len 160, in a sub-process with a fresh corpus directory under out/fuzz, the same oracle applied to every input inside the target".format(FUZZ_RUNS),
              required_labels=['{}/{}'.format(f, t) for t in R.TYPES for f in R.INHOUSE[t]] +
              ['blank-line', 'comment-line', 'rejected', 'dag-rejected', 'valid-accepted', 'ref:valid', 'ref:invalid',
               'ref:gray', '>=10-vertices', 'why:vertex-out-of-range', 'why:missing-terminator', 'why:self-loop',
               'why:edge-against-bipartition', 'why:dag-back-edge', 'why:wrong-edge-count',
               'why:vertex-lines-not-increasing', 'why:too-few-entries', 'why:too-many-entries',
-              'why:no-size-line', 'mut:truncate']),
+              'why:no-size-line', 'mut:truncate', 'valid-accepted-from-stream'] + ['rstream:' + k for k in RKINDS] +
+             ['rapi:' + a for a in RAPIS[:3]]),
     SubCheck('nx_docs', run_nxdoc, strategy=strat_nxdoc,
              quick=2000, thorough=40000,
              rule="GML and DOT documents written by the harness's own writers (0..14 nodes, identifiers 1..n / 0..n-1 / with gaps / alphabetic, node statements in order or shuffled, quoted identifiers, labels, extra attributes, comments, one-line layout, undeclared nodes, either endpoint first for undirected edges, bipartite attribute); unmutated documents must be read exactly (numbering by increasing identifier; a dag document with a back edge must be rejected); a quarter of the documents get 1..3 text mutations and must give a graph or ValueError; non-trivial: >=1 edge and >=3 nodes",
@@ -1352,8 +1371,8 @@ def enum_roundtrip_large(tier):
 
 SUBCHECKS.append(
     SubCheck('roundtrip_large', run_roundtrip_large, enumerate_cases=enum_roundtrip_large,
-             rule="pseudo-random simple/directed/acyclic/bipartite graphs with 150-400 vertices and 4095..20000 edges written and read back (StringIO and file) in kthlist, dimacs, matrix and gml; oracle: same vertices, sides and edges; in-house formats also parsed by the harness; non-trivial: all",
-             required_labels=['edges>=4096', 'simple', 'bipartite', 'dag']))
+             rule="pseudo-random simple/directed/acyclic/bipartite graphs with 150-400 vertices and 4095..20000 edges written and read back (StringIO and file) in kthlist, dimacs, matrix and gml; oracle: same vertices, sides and edges; in-house formats also parsed by the harness; plus 8 (quick) / 30 (thorough) graphs with 200-400 vertices and 3000..20000 edges written into each kind of destination that cannot seek and read from each kind of source that cannot seek (texts longer than the 64 KiB a pipe holds), same oracle; non-trivial: all",
+             required_labels=['edges>=4096', 'simple', 'bipartite', 'dag', 'stream-text>64KiB']))
 
 
 # ---------------------------------------------------------------------------
